@@ -342,6 +342,9 @@ func xLine(c *E2ECase, res *E2EResult, s int) (string, string, bool) {
 		if e.Fail {
 			f = 1
 		}
+		if e.Kind == "lost" {
+			f = 2 // took effect but answered 500: outside the model's fault assumption, line not judged
+		}
 		switch e.Class {
 		case "man-put", "man-get":
 			if !notEntered[e.Op] {
